@@ -23,19 +23,20 @@ THEOREM_CLASSES = {
     "C19_spans_disjoint_across_reuse": "main", "C19_finalize_unmaps_everything": "main",
     "C19_lalloc_history_ownership": "main", "C19_blocks_of_different_classes_disjoint": "corollary",
     "C19_small_block_disjoint_from_big": "corollary", "C19_big_blocks_disjoint": "corollary",
+    "C19_combined_history_small_medium": "main", "C19_combined_empty": "corollary",
     "C19_span_layer_supplies_accepted_span": "corollary", "C19_heap_allocate_not_refused_partial": "main", "C19_contents_preserved": "main",
 }
 UNPROVED = [
     "'pairwise disjoint while live' as ONE statement over L_alloc histories: proved in three pieces - within a class over any alloc/free history (C19_span_machine_history), across classes and against large/huge blocks from the ownership invariant over any l_alloc history (C19_lalloc_history_ownership + corollaries), geometry (C19_blocks_disjoint) - but the glue 'the class-level live list is the projection of the heap-level live list' is not proved, so no single theorem quantifies over mixed histories with a ghost set of live blocks",
     "'contents preserved across reallocation': C19_contents_preserved is about an abstract memory and one memcpy; that l_alloc performs exactly this copy (and the in-place case writes nothing) is read from the code, the fill patterns of the harness test it",
     "'returns all memory to the OS when finalized': proved for the span-layer MODEL (C19_finalize_unmaps_everything); the model follows srpmalloc.c operation by operation on the span-snapshot streams (state read from the allocator's caches, reserve, class lists and span headers after every call), but rpmalloc_finalize itself is compared only through the map/unmap balance, not replayed",
-    "C19_lalloc_history_ownership excludes by construction the histories in which the environment offers a span that is in use (CErrOracle -> lrun = None). C19_heap_allocate_not_refused_partial discharges that for ONE step under the coupling invariant (the heap's spans are the other objects of the span-layer state); that the coupling is maintained along a combined heap + span-layer history (a combined machine) is not proved. Both models are however run against srpmalloc.c operation by operation (block trace and span-layer snapshots), and the span-layer invariant is evaluated on the allocator's own state after every operation",
+    "the combined heap + span-layer machine (spans served by the span-layer model, no oracle) is proved for SMALL/MEDIUM allocations and frees only (C19_combined_history_small_medium: coupling invariant preserved, never CErrOracle, over every history). Not in the combined machine: large and huge requests (multi-span objects, reuse of a cached M-span for N, spans kept as the reserve, huge blocks mapped outside the span layer), reallocations (in place, and moves, which can change regime), and the per-class live-block bookkeeping (class_inv) - for those C19_lalloc_history_ownership still excludes an in-use span by construction (CErrOracle -> lrun = None) and C19_heap_allocate_not_refused_partial gives the one-step argument. Both models are run against srpmalloc.c operation by operation (block trace and span-layer snapshots), and the span-layer invariant is evaluated on the allocator's own state after every operation",
     "span caches' size limits and reuse order; the global reserve (unused when span_map_count <= heap_reserve_count and page size <= span size)",
     "the OS returning span-aligned, non-overlapping mappings (checked at run time by the map hook)",
     "multi-threading / deferred frees (the interpreter is single threaded)",
 ]
 MANIFEST_ENTRY = {
-    "text": "proof, partial: theorems cover, for the model of srpmalloc.c as L_alloc uses it, 16-byte alignment and containment of every block, usable size >= requested in all four regimes and across realloc (every 64-bit size), the per-class span machine over any alloc/free history (partition of indices, no double hand-out, exact used_count), span ownership over any history of L_alloc calls (different classes / large / huge blocks never share a span), the span layer over any history (no overlap across cache reuse, finalize unmaps every region; this model is replayed against the allocator's span bookkeeping operation by operation), one-step acceptance of span-layer spans by the heap model and the copy performed by a moving realloc. Not one end-to-end theorem: the pieces are joined by stated glue (UNPROVED); content preservation and return of memory in the real allocator rest on the C harness (fill patterns, map/unmap balance).",
+    "text": "proof, partial: theorems cover, for the model of srpmalloc.c as L_alloc uses it, 16-byte alignment and containment of every block, usable size >= requested in all four regimes and across realloc (every 64-bit size), the per-class span machine over any alloc/free history (partition of indices, no double hand-out, exact used_count), span ownership over any history of L_alloc calls (different classes / large / huge blocks never share a span), the span layer over any history (no overlap across cache reuse, finalize unmaps every region; this model is replayed against the allocator's span bookkeeping operation by operation), the combined heap + span-layer machine for small/medium requests (no oracle: a span is never handed out twice), one-step acceptance of span-layer spans for large/huge and the copy performed by a moving realloc. Not one end-to-end theorem: the pieces are joined by stated glue (UNPROVED); content preservation and return of memory in the real allocator rest on the C harness (fill patterns, map/unmap balance).",
     "note": "trusted: Coq kernel, hand-written models of srpmalloc.c (tied by regenerated #defines/guards, by op-by-op trace correspondence of the heap model against the real allocator, and by observable consequences for the span layer), extraction, C harness (includes srpmalloc.c and the text of L_alloc from lua.c), gcc/clang+ASan/UBSan; assumes span-aligned non-overlapping OS mappings, single thread; reads src/lua/lua.c and the Makefile besides srpmalloc.c",
     "technique": "machine-checked proof in Coq over executable models + regenerated parameters + extracted-model/implementation trace correspondence; shadow-map property oracle in C",
 }
